@@ -48,9 +48,14 @@ SPEC = dict(
              invariants=["ReadsSeeHostWrites", "NextStatementFrozen"], properties=PROPS, bugs=[("failedSetWrites", ["NextStatementFrozen"], ["FailedStepFrozen"])]),
         dict(family="vars", storer="map", n=(150, 3000), mc=dict(max_calls=10, after_end=0),
              invariants=INV, properties=PROPS),
+        # the same lines and assignments reached again (the node runs three times) with host writes in between
+        dict(family="varsloop", n=(30, 300), mc=dict(max_calls=9, after_end=0, host_writes=True, max_host_sets=1),
+             invariants=["ReadsSeeHostWrites"], properties=[]),
     ],
     cs=[dict(family="vars", n=(120, 2500), paths=(3, 5), calls=14, hostsets=True,
              label="YarnTrace: longer assignment histories with host writes (recording storer)"),
+        dict(family="varsloop", n=(60, 600), paths=(3, 5), calls=30, hostsets=True,
+             label="YarnTrace: lines and assignments reached again after host writes"),
         dict(family="vars", storer="inmemory", n=(60, 300), paths=(3, 5), calls=14, hostsets=True,
              label="YarnTrace: host writes through a host-supplied variable.InMemoryStorer")],
     nontrivial=lambda c: sum(1 for b in c["bodies"] for s in b if s["k"] == "set" and s["op"] != "=") >= 2,
